@@ -116,9 +116,9 @@ Contexts == {"req", "opt", "item", "nested", "addl", "req2", "two", "twoall", "c
 GenericForms == {"inline", "defs", "definitions", "chain", "file", "filedef", "subdir", "updir", "yaml", "noext", "dotslash"}
 \* a document that is the target of a file reference needs a typed root ("schema has no root" otherwise; the
 \* tool turns an untyped root into an object): the untyped enum cannot be the root of a file
-RootForms == {"file", "dotslash", "subdir", "updir", "yaml", "noext", "filechain", "dotdot", "samefile"}
+RootForms == {"file", "dotslash", "subdir", "updir", "yaml", "noext", "filechain", "filechainnt", "dotdot", "samefile"}
 FormsOf(c, k) == IF k \in AltOnly /\ c \notin {"two", "twoall", "collide"} THEN {} ELSE
-                 (CASE c = "nested" -> GenericForms \cup {"filechain"}
+                 (CASE c = "nested" -> GenericForms \cup {"filechain", "filechainnt"}
                     [] c = "req2"   -> GenericForms \cup {"dotdot"}
                     [] c = "two"    -> {"inline", "samefile", "samedef", "samedefinline"}
                     [] c = "twoall" -> {"inline", "samebranch"}
@@ -213,6 +213,11 @@ Unit(c, k, f) ==
     [] f = "filechain"   -> plain(ObjReq(<<[k |-> "x", s |-> RPath(<<"sub", "m.json">>, "", "Mf")]>>, <<"x">>), <<>>, <<>>,
                                   <<File(<<"sub", "m.json">>, "Mf", Obj(<<[k |-> "y", s |-> RPath(<<"n.json">>, "", "N")]>>), <<>>, FALSE),
                                     File(<<"sub", "n.json">>, "N", lf, <<>>, FALSE), File(<<"n.json">>, "Decoy", alt, <<>>, FALSE)>>)
+    \* the same chain through a middle document whose root states NO type, only properties (the tool makes the root of a
+    \* document an object; on the documents of the class -- x is always an object -- the two mean the same)
+    [] f = "filechainnt" -> plain(ObjReq(<<[k |-> "x", s |-> RPath(<<"sub", "m.json">>, "", "Mf")]>>, <<"x">>), <<>>, <<>>,
+                                  <<File(<<"sub", "m.json">>, "Mf", [properties |-> <<[k |-> "y", s |-> RPath(<<"n.json">>, "", "N")]>>], <<>>, FALSE),
+                                    File(<<"sub", "n.json">>, "N", lf, <<>>, FALSE), File(<<"n.json">>, "Decoy", alt, <<>>, FALSE)>>)
     \* two spellings of one file
     [] f = "dotdot"      -> plain(RootOf(c, RPath(<<"n.json">>, "", "N"), RPath(<<"sub", "..", "n.json">>, "", "N")), <<>>, <<>>,
                                   <<File(<<"n.json">>, "N", lf, <<>>, FALSE), File(<<"sub", "pad.json">>, "Pad", Obj(<<>>), <<>>, FALSE)>>)
@@ -272,7 +277,7 @@ Set == form # "?"
 
 FactorOK ==
   Set => LET un == u  b == base IN
-         /\ Deref(Env(un), un.schema, 6) = b.schema
+         /\ (form = "filechainnt" \/ Deref(Env(un), un.schema, 6) = b.schema)
          /\ un.docs = b.docs
          /\ \A i \in DOMAIN un.docs :
                Valid(Env(un), un.schema, un.docs[i], {}, "decl", NoLim) = Valid(<<>>, b.schema, b.docs[i], {}, "decl", NoLim)
@@ -286,7 +291,7 @@ ResolveOK ==
 SwitchesBite ==
   Set => LET un == u  lds == Loads(un) IN
          /\ (form = "samefile") = ~RelativeToDocument(FSOf(un), un.exts, lds, {"CacheKeyedByRawRef"})
-         /\ (form \in {"filechain", "samefile"}) = ~RelativeToDocument(FSOf(un), un.exts, lds, {"NestedRefRelativeToRoot"})
+         /\ (form \in {"filechain", "filechainnt", "samefile"}) = ~RelativeToDocument(FSOf(un), un.exts, lds, {"NestedRefRelativeToRoot"})
 
 DesignOK == FactorOK /\ ResolveOK /\ SwitchesBite
 \* with the open deviations the loader still resolves every reference of every layout as the file system says,
@@ -294,7 +299,7 @@ DesignOK == FactorOK /\ ResolveOK /\ SwitchesBite
 AsIsOK == Set => LET un == u IN
             \/ RelativeToDocument(FSOf(un), un.exts, Loads(un), Devs)
             \/ ("CacheKeyedByRawRef" \in Devs /\ form = "samefile")
-            \/ ("NestedRefRelativeToRoot" \in Devs /\ form \in {"filechain", "samefile"})
+            \/ ("NestedRefRelativeToRoot" \in Devs /\ form \in {"filechain", "filechainnt", "samefile"})
 
 Init == leaf \in Leaves /\ ctx \in Contexts /\ form = "?"
 Pick == /\ form = "?"
